@@ -1,1 +1,243 @@
-// verification hook for h263/src/decoder/cpu/rle.rs (compiled only under cfg(kani) or cfg(ruffle_rs_h263_rs_verif))
+// Hook module of h263/src/decoder/cpu/rle.rs.  Properties: C11 (dequantisation), C02 (zig-zag placement, sparsity class).
+#![allow(dead_code, unused_imports)]
+use super::*;
+use crate::types::{IntraDc, TCoefficient};
+
+include!("/verif/hooks/common.rs");
+include!("/verif/spec/h263_tables.rs");
+
+// expected dense 8x8 block (row-major [row][col]) from INTRADC + events, per H.263 6.2 and Figure 14
+fn expect_block(dc: Option<u8>, ev: &[(u8, i16)], q: u8) -> ([[i32; 8]; 8], bool) {
+    let mut m = [[0i32; 8]; 8];
+    let mut k = 0usize;
+    let mut truncated = false;
+    if let Some(code) = dc {
+        m[0][0] = h263_spec::intradc_level(code).unwrap_or(0);
+        k = 1;
+    }
+    let mut i = 0;
+    while i < ev.len() {
+        k += ev[i].0 as usize;
+        if k >= 64 {
+            truncated = true;
+            break;
+        }
+        let (r, c) = h263_spec::zigzag_pos(k);
+        m[r][c] = h263_spec::dequant(q, ev[i].1);
+        k += 1;
+        i += 1;
+    }
+    (m, truncated)
+}
+
+// compare a DecodedDctBlock with the expected dense block: values and sparsity class
+//   Zero  <=> all coefficients zero;  Dc <=> only (0,0) non-zero;  Horiz <=> support within row 0 (and beyond (0,0));
+//   Vert  <=> support within column 0 (and beyond (0,0));  Full otherwise.
+fn same_block(got: &DecodedDctBlock, m: &[[i32; 8]; 8]) -> (bool, bool) {
+    let mut nz_row0 = false; // non-zero in row 0, col > 0
+    let mut nz_col0 = false; // non-zero in col 0, row > 0
+    let mut nz_else = false;
+    let mut r = 0;
+    while r < 8 {
+        let mut c = 0;
+        while c < 8 {
+            if m[r][c] != 0 {
+                if r == 0 && c > 0 {
+                    nz_row0 = true;
+                } else if c == 0 && r > 0 {
+                    nz_col0 = true;
+                } else if r > 0 && c > 0 {
+                    nz_else = true;
+                }
+            }
+            c += 1;
+        }
+        r += 1;
+    }
+    let dense = nz_else || (nz_row0 && nz_col0);
+    let mut vals = true;
+    let class;
+    match got {
+        DecodedDctBlock::Zero => {
+            class = !dense && !nz_row0 && !nz_col0 && m[0][0] == 0;
+        }
+        DecodedDctBlock::Dc(v) => {
+            class = !dense && !nz_row0 && !nz_col0 && m[0][0] != 0;
+            vals = *v == m[0][0] as f32;
+        }
+        DecodedDctBlock::Horiz(row) => {
+            class = !dense && nz_row0;
+            let mut c = 0;
+            while c < 8 {
+                if row[c] != m[0][c] as f32 {
+                    vals = false;
+                }
+                c += 1;
+            }
+        }
+        DecodedDctBlock::Vert(col) => {
+            class = !dense && nz_col0;
+            let mut r = 0;
+            while r < 8 {
+                if col[r] != m[r][0] as f32 {
+                    vals = false;
+                }
+                r += 1;
+            }
+        }
+        DecodedDctBlock::Full(b) => {
+            class = dense;
+            let mut r = 0;
+            while r < 8 {
+                let mut c = 0;
+                while c < 8 {
+                    if b[r][c] != m[r][c] as f32 {
+                        vals = false;
+                    }
+                    c += 1;
+                }
+                r += 1;
+            }
+        }
+    }
+    (vals, class)
+}
+
+// C11: one event, every quantizer 1..=31, every level -1023..=1023 except 0, every run 0..=63, with and without INTRADC
+fn h_single<S: Src, const INTRA: bool>(s: &mut S) {
+    let q = s.u8();
+    s.assume(q >= 1 && q <= 31);
+    let level = s.i16();
+    s.assume(level >= -1023 && level <= 1023 && level != 0);
+    let run = s.u8();
+    s.assume(run < 64);
+    let dc = if INTRA {
+        let c = s.u8();
+        s.assume(c != 0 && c != 128);
+        Some(c)
+    } else {
+        None
+    };
+    let blk = Block { intradc: dc.and_then(IntraDc::from_u8), tcoef: vec![TCoefficient { is_short: false, run, level }] };
+    let mut levels = [DecodedDctBlock::Zero; 1];
+    inverse_rle(&blk, &mut levels, (0, 0), 1, q);
+    let (m, truncated) = expect_block(dc, &[(run, level)], q);
+    if !truncated {
+        let (vals, class) = same_block(&levels[0], &m);
+        chk!(s, vals, "rle.inverse_rle.post_coeff: coefficient at its zig-zag position == sat(sign(L)*(Q*(2|L|+1) - [Q even])), every other coefficient 0");
+        chk!(s, class, "rle.inverse_rle.post_class: Zero/Dc/Horiz/Vert/Full matches the support of the block");
+    }
+    s.reach();
+}
+
+// C02: up to N events (runs and levels symbolic), INTRADC optional, block position and stride concrete
+fn h_multi<S: Src, const N: usize>(s: &mut S) {
+    let q = s.u8();
+    s.assume(q >= 1 && q <= 31);
+    let has_dc = s.bool();
+    let dc = if has_dc {
+        let c = s.u8();
+        s.assume(c != 0 && c != 128);
+        Some(c)
+    } else {
+        None
+    };
+    let mut ev = [(0u8, 0i16); N];
+    let mut tc = Vec::with_capacity(N);
+    let mut i = 0;
+    while i < N {
+        let run = s.u8();
+        let level = s.i16();
+        s.assume(run < 64 && level >= -127 && level <= 127 && level != 0);
+        ev[i] = (run, level);
+        tc.push(TCoefficient { is_short: true, run, level });
+        i += 1;
+    }
+    let blk = Block { intradc: dc.and_then(IntraDc::from_u8), tcoef: tc };
+    // block (1,1) of a 2-blocks-per-line array: index 3; the other entries must stay untouched
+    let mut levels = [DecodedDctBlock::Zero; 4];
+    inverse_rle(&blk, &mut levels, (8, 8), 2, q);
+    let (m, truncated) = expect_block(dc, &ev, q);
+    if !truncated {
+        let (vals, class) = same_block(&levels[3], &m);
+        chk!(s, vals, "rle.inverse_rle.post_coeff: every coefficient == dequantised level at its zig-zag position, others 0");
+        chk!(s, class, "rle.inverse_rle.post_class: Zero/Dc/Horiz/Vert/Full matches the support of the block");
+    }
+    chk!(s, matches!(levels[0], DecodedDctBlock::Zero) && matches!(levels[1], DecodedDctBlock::Zero) && matches!(levels[2], DecodedDctBlock::Zero),
+         "rle.inverse_rle.frame: only the addressed block of the level array is written");
+    s.reach();
+}
+
+// the zig-zag table itself == Figure 14 (all 64 positions)
+fn h_zigzag<S: Src>(s: &mut S) {
+    let mut k = 0;
+    let mut ok = true;
+    while k < 64 {
+        let (r, c) = h263_spec::zigzag_pos(k);
+        let (x, y) = DEZIGZAG_MAPPING[k];
+        if x as usize != c || y as usize != r {
+            ok = false;
+        }
+        k += 1;
+    }
+    chk!(s, ok, "rle.DEZIGZAG_MAPPING.figure14: entry k == (column, row) of the k-th coefficient of Figure 14/H.263");
+    s.reach();
+}
+
+#[cfg(kani)]
+mod proofs {
+    use super::*;
+    #[kani::proof]
+    #[kani::unwind(10)]
+    fn single_inter() {
+        h_single::<KSrc, false>(&mut KSrc)
+    }
+    #[kani::proof]
+    #[kani::unwind(10)]
+    fn single_intra() {
+        h_single::<KSrc, true>(&mut KSrc)
+    }
+    #[kani::proof]
+    #[kani::unwind(10)]
+    fn multi2() {
+        h_multi::<KSrc, 2>(&mut KSrc)
+    }
+    #[kani::proof]
+    #[kani::unwind(10)]
+    fn multi3() {
+        h_multi::<KSrc, 3>(&mut KSrc)
+    }
+    #[kani::proof]
+    #[kani::unwind(10)]
+    fn multi4() {
+        h_multi::<KSrc, 4>(&mut KSrc)
+    }
+    #[kani::proof]
+    #[kani::unwind(66)]
+    fn zigzag() {
+        h_zigzag(&mut KSrc)
+    }
+}
+
+#[cfg(all(test, not(kani)))]
+mod replay {
+    use super::*;
+    #[test]
+    fn verif_replay() {
+        let name = std::env::var("VERIF_HARNESS").unwrap_or_default();
+        let mut r = RSrc::from_env();
+        match name.as_str() {
+            "single_inter" => h_single::<RSrc, false>(&mut r),
+            "single_intra" => h_single::<RSrc, true>(&mut r),
+            "multi2" => h_multi::<RSrc, 2>(&mut r),
+            "multi3" => h_multi::<RSrc, 3>(&mut r),
+            "multi4" => h_multi::<RSrc, 4>(&mut r),
+            "zigzag" => h_zigzag(&mut r),
+            _ => {
+                println!("REPLAY-UNKNOWN harness={}", name);
+                return;
+            }
+        }
+        r.report(&name);
+    }
+}
